@@ -115,6 +115,15 @@ def run(tier):
             a = {"sql": sqla, "rows": [prow(rng, i + 1, ka) for i in range(na)]}
             b = {"sql": sqlb, "rows": [prow(rng, i + 1, kb) for i in range(nb)]}
             pairs.append({"meta": {"fam": "pair"}, "a": a, "b": b, "pattern": pat})
+    # two instances share ONE table object (B registers the handle A's RegisterTable returned); A is stopped half-way: B's results stay
+    # what they are when B runs alone
+    for pat in pats[:6] if quick else pats:
+        for kind in ("JOIN", "LEFT JOIN"):
+            sql = "SELECT id, m.loc AS loc FROM stream %s meta m ON g = m.g" % kind
+            tbl = [{"name": "meta", "rows": [{"g": "p", "loc": "L1"}, {"g": "q", "loc": "L2"}], "keys": ["g"]}]
+            a = {"sql": sql, "rows": [prow(rng, i + 1, "num") for i in range(6)], "tables": tbl}
+            b = {"sql": sql, "rows": [prow(rng, i + 1, "num") for i in range(8)], "tables": tbl}
+            pairs.append({"meta": {"fam": "pair"}, "a": a, "b": b, "pattern": pat, "share": True, "stop_a": rng.choice([1, 2, 3])})
     seqfam.run_scenarios(res, pairs, "TraceIso", spec_dir=PIPE, tag="pair", sub="pair")
     res.cov["exhaustive"] = False
     res.cov["distinct_nontrivial"] = len(scen) + len(pairs)
